@@ -14,7 +14,7 @@ use crate::Ctx;
 use mdv_core::mdparse::{Dump, NormOpts};
 use mdv_core::{json, Report, Value};
 
-const CHANGES: [&str; 10] = ["none", "add-thread", "exit-thread", "rewrite-app-region", "aborted-dump-first", "reconfigure-app-memory", "reconfigure-crash-context", "reconfigure-user-mappings", "reconfigure-principal-mapping", "retarget-to-another-process"];
+const CHANGES: [&str; 11] = ["none", "add-thread", "exit-thread", "rewrite-app-region", "aborted-dump-first", "reconfigure-app-memory", "reconfigure-crash-context", "reconfigure-user-mappings", "reconfigure-principal-mapping", "retarget-to-another-process", "target-killed-unreaped"];
 const OPTSETS: [&str; 7] = ["plain", "crash-context", "app-memory", "skip-unreferenced", "size-limit", "all", "blamed-thread-that-may-exit"];
 
 fn opts(set: usize, b: &Built, env: &Env) -> DumpOpts {
@@ -84,6 +84,7 @@ fn run_history(set: usize, hist: &[usize]) -> Res {
     let mut o = opts(set, &b, &env);
     let mut reused = make_writer(b.p.pid, &o);
     let mut cfg_gen = 0usize;
+    let mut dead = false;
     let mut fails = Vec::new();
     let mut dumps = 0;
     let mut sig = Vec::new();
@@ -159,13 +160,31 @@ fn run_history(set: usize, hist: &[usize]) -> Res {
                     o.blamed = None;
                 }
             }
+            10 => {
+                // the target dies and is not reaped: a zombie can still be "dumped" (no threads can be walked)
+                unsafe {
+                    libc::syscall(libc::SYS_kill, b.p.pid, libc::SIGKILL);
+                }
+                let dl = std::time::Instant::now() + std::time::Duration::from_secs(5);
+                while std::time::Instant::now() < dl && !std::fs::read_to_string(format!("/proc/{}/stat", b.p.pid)).map(|s| s.rsplit(')').next().unwrap_or("").trim_start().starts_with('Z')).unwrap_or(true) {
+                    std::thread::sleep(std::time::Duration::from_millis(1));
+                }
+                dead = true;
+                // a dead target is never seen stopped: keep the (bounded) wait short for both writers
+                reused.stop_timeout(std::time::Duration::from_millis(200));
+                o.stop_timeout_ms = Some(200);
+            }
             _ => {}
         }
-        b.p.quiesce();
+        if !dead {
+            b.p.quiesce();
+        }
         let mut c1 = std::io::Cursor::new(Vec::new());
         let r1 = dump_with(&mut reused, &mut c1);
         // let every thread re-enter its blocking syscall before the reference dump
-        b.p.quiesce();
+        if !dead {
+            b.p.quiesce();
+        }
         let mut fresh = make_writer(b.p.pid, &o);
         let mut c2 = std::io::Cursor::new(Vec::new());
         let r2 = dump_with(&mut fresh, &mut c2);
@@ -235,6 +254,9 @@ pub fn run(ctx: &Ctx, rep: &mut Report) {
                     }
                     if c == 9 && !(set == 0 || set == 4) {
                         continue;
+                    }
+                    if h.contains(&10) {
+                        continue; // nothing follows the death of the target
                     }
                     let mut h2 = h.clone();
                     h2.push(c);
